@@ -59,6 +59,30 @@ CLAIMS = {
             'round trip; byte-offset pointers (generated or via .idx text) give exactly the records of a '
             'linear scan for unbounded symbolic line lengths incl. multi-byte characters; stale .idx rejected.',
             'Decimal renderings are modelled by opaque tokens (mpgverif/inttok.py); SHA-512 is stubbed.'),
+    'C14': (True, CH,
+            'VEP converter: for every chromosome content (length 5, thorough 6), gene/transcript span, strand, '
+            'cds_start_NF and every SNV / deletion / insertion (both VEP conventions) / >=3-base substitution, REF '
+            'equals the gene sequence and applying the record equals applying the genomic event and re-extracting the '
+            'gene (elementwise); boundary events are rejected, never misplaced. REDItools: placement per transcript '
+            '(one and two genes) and exact coverage/frequency thresholds.',
+            'Frequency test compared against the exact rational rule for read counts 0..7; parse of the text tables is '
+            'outside the claim.'),
+    'C16': (True, CH,
+            'SE, A5SS, A3SS, MXE, RI on genes with symbolic exon coordinates, both strands: every emitted record, applied '
+            'under the documented <DEL>/<INS>/<SUB> semantics, yields exactly the alternative isoform (provenance '
+            'membership of an arbitrary genomic position + anchor/donor placement); nothing is emitted when every '
+            'junction is annotated or read support is below the thresholds.',
+            'Event exons coincide with annotated exons as the property states; REF bases (sequence content) are stubbed.'),
+    'C17': (True, CH,
+            'circRNA / ciRNA records: fragments equal the strand-corrected reported blocks, id encodes the back-splice '
+            'coordinates, non-annotated blocks and ciRNAs outside the tolerance ranges are rejected, circular sequence '
+            'equals the concatenated blocks elementwise, read thresholds exact, CLI loop skips and counts.',
+            'Text parsing of the CIRCexplorer table is outside the claim.'),
+    'C19': (True, CH,
+            'For each of 9 header-entry kinds and all values of expression, cut-off, coding membership, denylist and the '
+            'keep-* flags, the real filter keeps an entry iff the stated rule holds; peptide kept iff some entry kept; '
+            'sequence unchanged; idempotent; miscleavage range exact.',
+            'Expression values are integers (real-valued levels outside the claim); labels are concrete strings.'),
 }
 
 NOT_YET = 'no solver-based check built for this property in this revision of /verif'
